@@ -238,6 +238,10 @@ class ProtoRecorder:
         self.max_adaptive = 400
         self.assemble = []
         self.assemble_errors = []
+        self.span = []
+        self.span_cur = None
+        self.max_span = 12
+        self.max_span_size = 6000
         self.max_assemble = 40
         self.cur = None
         rec = self
@@ -248,13 +252,32 @@ class ProtoRecorder:
             out = rec.orig["_find_best_basis"](finder, valid_spans, valid_span_metrics)
             if rec.cur is not None:
                 rec.cur.update(totalValid=len(valid_spans), combo=[int(i) for i in out], spans=np.array(valid_spans, dtype=float))
+            if rec.span_cur is not None:
+                rec.span_cur.update(valid_metrics=[int(m) for m in valid_span_metrics], combo=[int(i) for i in out])
             return out
 
-        def graphs(finder, *a, **k):
-            out = rec.orig["_find_graphs"](finder, *a, **k)
+        def graphs(finder, seed_index, numbers, best_adjacency_lists, neighbour_indices, neighbour_factors):
+            try:
+                out = rec.orig["_find_graphs"](finder, seed_index, numbers, best_adjacency_lists, neighbour_indices, neighbour_factors)
+            except Exception as e:  # noqa
+                if rec.span_cur is not None:
+                    rec.span_cur["graphs_exception"] = repr(e)[:120]
+                raise
             if rec.cur is not None:
                 rec.cur["seedInGraph"] = out[1] is not None
+            if rec.span_cur is not None:
+                nd = lambda n: (int(n[0]), tuple(int(v) for v in n[1]))
+                rec.span_cur["graph_in"] = [[(nd(k_), nd(v_)) for k_, vs in adj.items() for v_ in vs] for adj in best_adjacency_lists]
+                rec.span_cur["graph_out"] = None if out[2] is None else {
+                    "groups": [sorted(nd(n) for n in nodes) for nodes in out[2]["nodes"]], "nums": [int(z) for z in out[2]["num"]],
+                    "seedGroup": None if out[1] is None else int(out[1])}
             return out
+
+        def _span_adj(adjacency_add, adjacency_sub):
+            if rec.span_cur is not None:
+                nd = lambda n: (int(n[0]), tuple(int(v) for v in n[1]))
+                rec.span_cur["adj_add"] = [[(nd(k_), nd(v_)) for k_, vs in adj.items() for v_ in vs] for adj in adjacency_add]
+                rec.span_cur["adj_sub"] = [[(nd(k_), nd(v_)) for k_, vs in adj.items() for v_ in vs] for adj in adjacency_sub]
 
         def _assemble_record(two, seed_nodes, group_data_pbc, seed_group_index, results, out, best_spans):
             """inputs and outputs of the basis assembly (model: lean/MatidModel/ProtoAssemble.lean, driver op `assemble`)"""
@@ -292,6 +315,7 @@ class ProtoRecorder:
                 G.get_positions_within_basis = orig_pwb
             if rec.cur is not None:
                 rec.cur["cellFound"] = out[0] is not None
+            _span_adj(adjacency_add, adjacency_sub)
             try:
                 _assemble_record(False, seed_nodes, group_data_pbc, seed_group_index, results, out, best_spans)
             except Exception as e:  # noqa
@@ -331,6 +355,7 @@ class ProtoRecorder:
                 G.get_positions_within_basis = orig_pwb
             if rec.cur is not None:
                 rec.cur["cellFound"] = out[0] is not None
+            _span_adj(adjacency_add, adjacency_sub)
             try:
                 _assemble_record(True, seed_nodes, group_data_pbc, seed_group_index, results, out, best_spans)
             except Exception as e:  # noqa
@@ -370,12 +395,37 @@ class ProtoRecorder:
             outer = rec.cur
             rec.cur = {"dims": [], "thick": [], "totalValid": 0, "combo": [], "seedInGraph": None, "cellFound": None, "min_dist": None}
             cur = rec.cur
+            n_neigh = int(np.sum(neighbour_mask))
+            take = len(rec.span) < rec.max_span and len(possible_spans) * max(n_neigh, 1) <= rec.max_span_size and rec.span_cur is None
+            orig_gm = G.get_matches
+            if take:
+                rec.span_cur = {"seed": int(seed_index), "calls": [], "n_spans": int(len(possible_spans)),
+                                "neigh": [(int(i), tuple(int(v) for v in f)) for i, f in zip(np.where(neighbour_mask)[0], neighbour_factors)]}
+                sc = rec.span_cur
+
+                def gm(system_, cell_list, positions, numbers, tolerance):
+                    r_ = orig_gm(system_, cell_list, positions, numbers, tolerance)
+                    sc["calls"].append(([None if m is None else int(m) for m in r_[0]], [tuple(int(v) if np.isfinite(v) else 0 for v in c) for c in r_[3]]))
+                    return r_
+                G.get_matches = gm
             try:
                 out = rec.orig["_find_proto_cell"](finder, system, seed_index, possible_spans, neighbour_mask, neighbour_factors, bond_threshold, overlap_threshold, pos_tol)
             except Exception:
                 rec.cur = outer
+                if take:
+                    rec.span_cur = None
                 raise
+            finally:
+                G.get_matches = orig_gm
             rec.cur = outer
+            if take:
+                sc = rec.span_cur
+                rec.span_cur = None
+                cell_ = np.array(system.get_cell())
+                pb_ = np.array(system.get_pbc(), dtype=bool)
+                sc["periodic_short"] = [bool(np.linalg.norm(v) <= finder.max_cell_size) for v in cell_[pb_]]
+                sc["accepted"] = out[0] is not None
+                rec.span.append(sc)
             cell = np.array(system.get_cell())
             pb = np.array(system.get_pbc(), dtype=bool)
             n_per = int((np.linalg.norm(cell[pb], axis=1) <= finder.max_cell_size).sum()) if pb.any() else 0
@@ -436,3 +486,22 @@ def adaptive_line(r):
         return "-" if t is None else "%d:%s:%d,%d,%d" % (t[0], fmt_vecs(t[1]), t[2][0], t[2][1], t[2][2])
     return "adaptcell %s %d %s %d,%d,%d %s %s %s" % (fmt_vecs(r["cell"]), r["idx"], fmt_vecs(r["pNode"]), r["fNode"][0], r["fNode"][1], r["fNode"][2],
                                                       nb(r["add"]), nb(r["sub"]), fmt_vecs(r["span"]))
+
+
+def sbcrun_line(a, clusters, rec, merge_threshold=0.5, thr=0.65):
+    """driver line that replays the recorded finder history of one get_clusters run through the Lean pipeline (merge -> localize -> clean)"""
+    from geom_common import fs
+    if not clusters:
+        return None
+    dist = clusters[0]._distances.dist_matrix_radii_mic
+    nums = a.get_atomic_numbers()
+    hist = ";".join("%d/%s/%d/%s" % (c["seed"], "none" if c["basis"] is None else dots(c["basis"]), (i + 1) if c["basis"] is not None else 0, dots(c["mask"]))
+                    for i, c in enumerate(rec.calls))
+    return "sbcrun %s %s %s %s %s" % (",".join(map(str, nums)), fs(merge_threshold), matrix_str(dist < 1), matrix_str(np.clip(dist, 0, None) <= thr), hist or "-")
+
+
+def sbcrun_agrees(o, clusters):
+    head, body = o.split(" ", 1) if " " in o else (o, "-")
+    model = [] if body == "-" else body.split(";")
+    real = [dots(c.indices) for c in clusters]
+    return head == "rem=-" and len(model) == len(real) and all(r in m.split(":")[0].split("|") for r, m in zip(real, model))
